@@ -70,6 +70,14 @@ class SetOrder:
                 return 'useq'
         if isinstance(e, ast.IfExp):
             return self.kind(e.body, st) or self.kind(e.orelse, st)
+        if isinstance(e, ast.Dict):
+            # a record holding a set-ordered sequence is itself order dependent
+            if any(v is not None and self.kind(v, st) == 'useq' for v in e.values):
+                return 'useq'
+        if isinstance(e, (ast.List, ast.Tuple)):
+            # [a, *s]: star-unpacking of a set (or of a sequence ordered by a set) into an ordered literal
+            if any(isinstance(x, ast.Starred) and self.kind(x.value, st) in ('set', 'useq') for x in e.elts):
+                return 'useq'
         return None
 
     def _leak(self, node, expr, why):
@@ -176,6 +184,11 @@ class SetOrder:
                 if self.kind(v, st) == 'useq':
                     self.instances += 1
                     self._leak(node, v, 'a sequence in set order is returned')
+                if isinstance(v, ast.Dict):
+                    for dv in v.values:
+                        if dv is not None and self.kind(dv, st) == 'useq':
+                            self.instances += 1
+                            self._leak(node, dv, 'a sequence in set order is stored in the returned dict')
         return [(None, st)]
 
 
